@@ -75,6 +75,16 @@ def class_identified_by_loader(chk: Check, rule: str = 'PROV-loader-precedence')
     chk.ob(rule, sv, ok, 'the class is identified by the loader in effect (custom if given, else default)', kind='class-identified-by-loader')
 
 
+def class_loaded_by_loader(chk: Check, rule: str = 'PROV-loader-precedence') -> None:
+    """Savable.load asks the loader of THIS load -- the object _ensure_object_loader put into the context -- for the class, every time: a class remembered from an
+    earlier load (keyed by the loader's type, say) was resolved by whichever loader instance came first."""
+    prog = chk.prog
+    ld = prog.func('persistence.Savable.load')
+    lo = [c for c in calls_in_func(ld, 'load_object')]
+    ok = len(lo) == 1 and norm(lo[0].func) == 'load_context.loader.load_object' and any(last_name(c) == '_ensure_object_loader' for c in calls_in_func(ld))
+    chk.ob(rule, ld, ok, 'load() resolves the class through the loader chosen by _ensure_object_loader', kind='class-loaded-by-loader')
+
+
 def loader_precedence(chk: Check, rule: str = 'PROV-loader-precedence') -> None:
     """_ensure_object_loader: a loader already in the load context wins; otherwise the saved state is consulted; the global default
     comes last.  Shared with C17 (the launcher's configured loader travels in the load context)."""
@@ -309,10 +319,8 @@ def run(chk: Check) -> None:
                f'{"an instance: the loaded class called" if records_class else "that object itself"} -- its consumers call load_object()/identify_object() on it '
                f'(found: {norm(val)})', node=uses[0], kind='class-vs-instance')
     class_identified_by_loader(chk)
+    class_loaded_by_loader(chk)
     ld = prog.func('persistence.Savable.load')
-    lo = [c for c in calls_in_func(ld, 'load_object')]
-    ok = len(lo) == 1 and norm(lo[0].func) == 'load_context.loader.load_object' and any(last_name(c) == '_ensure_object_loader' for c in calls_in_func(ld))
-    chk.ob('PROV-loader-precedence', ld, ok, 'load() resolves the class through the loader chosen by _ensure_object_loader', kind='class-loaded-by-loader')
 
     # 3. meta key paths agree between paired writer / reader helpers
     pairs = [('set_custom_meta', 'get_custom_meta'), ('_set_class_name', '_get_class_name'), ('_set_meta_type', '_get_meta_type')]
